@@ -331,6 +331,11 @@ func runC07(t testing.TB, c C07Case) (key, what string, classes map[string]int) 
 		case "unparsable":
 			state = "unparsable"
 			os.WriteFile(tmplFile, []byte(fmt.Sprintf("MARK-%d {{.URL", st.Marker)), 0o644)
+		case "noblock":
+			// refers to a named block which this version of the file does not
+			// define (an earlier version may have): execution must fail
+			state = "noblock"
+			os.WriteFile(tmplFile, []byte(fmt.Sprintf("MARK-%d [{{template \"cb\" .}}] ID={{.ID}}", st.Marker)), 0o644)
 		case "execfail":
 			state = "execfail"
 			os.WriteFile(tmplFile, []byte(fmt.Sprintf("partial-output-MARK-%d {{.Nope}} tail", st.Marker)), 0o644)
@@ -348,6 +353,9 @@ func runC07(t testing.TB, c C07Case) (key, what string, classes map[string]int) 
 			}
 		}
 		classes["tmpl-"+state]++
+		if state == "valid" && shape%5 >= 3 {
+			classes["tmpl-valid-with-named-block"]++
+		}
 		for q := 0; q < st.NReq; q++ {
 			res, err := s.Request([]byte("GET /c HTTP/1.1\r\nHost: t.example:7\r\nConnection: close\r\n\r\n"), "GET", "")
 			if err != nil {
@@ -379,21 +387,29 @@ func runC07(t testing.TB, c C07Case) (key, what string, classes map[string]int) 
 var idInBody = regexp.MustCompile(`ID=[0-9a-z]+`)
 
 func validTemplate(marker, shape int) string {
-	switch shape % 3 {
+	switch shape % 5 {
 	case 0:
 		return fmt.Sprintf("MARK-%d url={{.URL}} ID={{.ID}} fp={{.PubkeyFP}}\n", marker)
 	case 1:
 		return fmt.Sprintf("#!/bin/sh\n# MARK-%d\ncurl --pinnedpubkey sha256//{{.PubkeyFP}} https://{{.URL}}/x ID={{.ID}}\n", marker)
+	case 3: // a named block, defined and used
+		return fmt.Sprintf("{{define \"cb\"}}BLK-%d {{.URL}}{{end}}MARK-%d [{{template \"cb\" .}}] ID={{.ID}}", marker, marker)
+	case 4: // a named block defined empty
+		return fmt.Sprintf("{{define \"cb\"}}{{end}}MARK-%d [{{template \"cb\" .}}] ID={{.ID}}", marker)
 	}
 	return fmt.Sprintf("{{/* comment */}}MARK-%d {{if .URL}}has-url{{end}} ID={{.ID}}", marker)
 }
 
 func renderedTemplate(marker, shape int, u, pin string) string {
-	switch shape % 3 {
+	switch shape % 5 {
 	case 0:
 		return fmt.Sprintf("MARK-%d url=%s ID=<id> fp=%s\n", marker, u, pin)
 	case 1:
 		return fmt.Sprintf("#!/bin/sh\n# MARK-%d\ncurl --pinnedpubkey sha256//%s https://%s/x ID=<id>\n", marker, pin, u)
+	case 3:
+		return fmt.Sprintf("MARK-%d [BLK-%d %s] ID=<id>", marker, marker, u)
+	case 4:
+		return fmt.Sprintf("MARK-%d [] ID=<id>", marker)
 	}
 	return fmt.Sprintf("MARK-%d has-url ID=<id>", marker)
 }
@@ -496,9 +512,9 @@ func genC07() *rapid.Generator[C07Case] {
 		if rapid.IntRange(0, 2).Draw(t, "tmpl") == 0 {
 			for j := rapid.IntRange(1, 6).Draw(t, "nsteps"); j > 0; j-- {
 				c.Tmpl = append(c.Tmpl, TmplStep{
-					Action: rapid.SampledFrom([]string{"valid", "valid", "unparsable", "execfail", "delete", "none"}).Draw(t, "action"),
+					Action: rapid.SampledFrom([]string{"valid", "valid", "valid", "unparsable", "execfail", "noblock", "delete", "none"}).Draw(t, "action"),
 					Marker: rapid.IntRange(1, 9999).Draw(t, "marker"),
-					Shape:  rapid.IntRange(0, 2).Draw(t, "shape"),
+					Shape:  rapid.IntRange(0, 4).Draw(t, "shape"),
 					NReq:   rapid.IntRange(1, 3).Draw(t, "nreq"),
 				})
 			}
